@@ -2,7 +2,6 @@ package main
 
 import (
 	"go/ast"
-	"strings"
 
 	"promverif/eng"
 )
@@ -13,8 +12,13 @@ import (
 // definition of it (initial copy, append of the count_values label) must be followed by a sort of that variable
 // before the variable is used for anything else.
 func runC29Sorted(c *eng.Ctx) {
-	ev := c.Fn("promql:evaluator.eval")
-	const v = "sortedGrouping"
+	sortedBeforeUse(c, "promql:evaluator.eval", "sortedGrouping", 2)
+	// the join signature of vector matching: BytesWithLabels / BytesWithoutLabels need sorted names as well
+	sortedBeforeUse(c, "promql:evaluator.rangeEval", "names", 2)
+}
+
+func sortedBeforeUse(c *eng.Ctx, fnRef, v string, minDefs int) {
+	ev := c.Fn(fnRef)
 	def := eng.AssignVar(v)
 	isSort := func(n ast.Node) bool {
 		es, ok := n.(*ast.ExprStmt)
@@ -55,14 +59,12 @@ func runC29Sorted(c *eng.Ctx) {
 			return mentions(n)
 		case ast.Expr:
 			// go/cfg keeps conditions as bare expressions
-			if _, isIdent := n.(*ast.Ident); isIdent {
-				return false
-			}
-			return mentions(n) && !strings.HasPrefix(nodeText(n), "slices.Sort(")
+			// only whole branch conditions, not sub-expressions of the statements handled above
+			return g.IsCondOperand(n) && mentions(n)
 		}
 		return false
 	})
-	ev.Has("R5", def, 2)
+	ev.Has("R5", def, minDefs)
 	ev.Has("R5", sortM, 1)
 	ev.NoPathAvoid("R5", def, use, "sort of the grouping names", ev.Find(sortM))
 }
